@@ -36,6 +36,9 @@ type raceReport struct {
 var frameRe = regexp.MustCompile(`^  (\S+)\(\)$`)
 
 func isLibFrame(fn string) bool {
+	if strings.HasPrefix(fn, "github.com/relab/gorums.Verif") {
+		return false // accessors added by the overlay for the harness (extra/zz_verif_access.go)
+	}
 	return strings.HasPrefix(fn, "github.com/relab/gorums.") || strings.HasPrefix(fn, "github.com/relab/gorums/cmd/protoc-gen-gorums/dev.") || strings.HasPrefix(fn, "github.com/relab/gorums/ordering.")
 }
 
